@@ -8,6 +8,9 @@ import (
 	"strings"
 	"time"
 
+	builder "github.com/acekingke/yaccgo/Builder"
+	utils "github.com/acekingke/yaccgo/Utils"
+
 	"verif/harness/gen"
 	"verif/harness/ref"
 	"verif/harness/render"
@@ -228,6 +231,36 @@ func (c12) runOn(g *spec.Grammar, what string, injected bool, idx int) Outcome {
 	case !usable && b.RuntimeErr:
 		o.Status = "violated"
 		o.Detail = fmt.Sprintf("unusable grammar (%s: %s) refused by a runtime error instead of a diagnostic: %s\n%s\ngrammar:\n%s", what, why, b.Panic, trunc(b.Stack, 1200), text)
+	}
+	// "processed" includes code generation: for a sample of usable grammars with real actions ($$, $n up to
+	// $12, all four union fields) both generators must run to completion in-process
+	if o.Status == "held" && usable && idx >= 0 && idx%10 == 3 {
+		r2 := rand.New(rand.NewSource(int64(idx)*31 + 7))
+		g2 := gen.Rich(r2, gen.RichCfg{IntTags: true, LongRhs: idx%20 == 3, Names: idx%3 == 0, EOFAlias: true})
+		text2 := render.Render(g2, plainParts, render.Options{})
+		for _, lang := range []string{"go", "ts"} {
+			path := filepath.Join(scratch(), fmt.Sprintf("c12gen-%d-%d.%s", os.Getpid(), idx, lang))
+			var gerr error
+			var pan interface{}
+			yx.CaptureStdout(func() {
+				defer func() { pan = recover() }()
+				utils.PackFlags, utils.ObjectMode = idx%4 != 3, idx%8 >= 4
+				if lang == "go" {
+					gerr = builder.TemplateGenFromString(text2, path)
+				} else {
+					gerr = builder.TsGenFromString(text2, path)
+				}
+			})
+			utils.PackFlags, utils.ObjectMode = true, false
+			os.Remove(path)
+			o.count("eval:usable_grammars_generated_in_process", 1)
+			if gerr != nil || pan != nil {
+				o.Status = "violated"
+				o.Detail = fmt.Sprintf("code generation (%s) fails on a usable grammar: err=%v panic=%v\ngrammar:\n%s", lang, gerr, pan, text2)
+				o.Replay = map[string]interface{}{"grammar": text2}
+				break
+			}
+		}
 	}
 	// CLI leg on a sample: the same verdict must come out of the real binary, as exit status + diagnostic
 	if o.Status == "held" && idx >= 0 && idx%40 == 7 {
